@@ -153,6 +153,9 @@ class Trie(object):
                 node = node.children[token]
             except KeyError:
                 return None
+            if node is self.root:
+                # a link back to the root added by make_automaton()
+                return None
         return node
 
     def get(self, tokens_string, default=nil):
